@@ -10,6 +10,7 @@
 //	R6 rand       crypto/rand.Read, math/rand.*      -> vsim.Rand*
 //	R7 fscalls    os./ioutil./syscall./filepath. calls and *os.File methods -> vsimfs.*
 //	R8 fspoints   vsimfs.Point(site) before any other statement that calls into os, io/ioutil, syscall, path/filepath
+//	R10 transport Transport: &http.Transport{...} in a struct literal -> Transport: vsim.HTTPTransport(&http.Transport{...})
 //	R9 preempt    vsim.Preempt(site) before every statement of every function body (statement-level preemption for
 //	              small lock-free files; use together with R1)
 package main
@@ -304,6 +305,20 @@ func (rw *rewriter) run() {
 					n.Args = append([]ast.Expr{sel.X}, n.Args...)
 					rw.usedFs = true
 					rw.counts["R7"]++
+				}
+			}
+		case *ast.KeyValueExpr:
+			if rw.rules["R10"] {
+				if k, ok := n.Key.(*ast.Ident); ok && k.Name == "Transport" {
+					if u, ok := n.Value.(*ast.UnaryExpr); ok && u.Op == token.AND {
+						if cl, ok := u.X.(*ast.CompositeLit); ok {
+							if sel, ok := cl.Type.(*ast.SelectorExpr); ok && sel.Sel.Name == "Transport" && rw.pkgOf(sel.X) == "net/http" {
+								n.Value = &ast.CallExpr{Fun: vsimSel("HTTPTransport"), Args: []ast.Expr{u}}
+								rw.usedVsim = true
+								rw.counts["R10"]++
+							}
+						}
+					}
 				}
 			}
 		case *ast.FuncDecl:
